@@ -19,7 +19,8 @@ for arg in "$@"; do
     first=$(echo "$out" | grep -E "violation:|break:|disagreement" | head -1 | cut -c1-200)
     echo "$m verdict=$verdict violations=$nv no_input=$nf :: $first"
   done
-  # the unchanged snapshot must be quiet again
+  # the unchanged snapshot must be quiet again (skipped with NO_CLEAN=1)
+  [ -n "$NO_CLEAN" ] && continue
   out=$(./check "$pid" --tier quick 2>&1 | grep -E "^VIOLATION| -> " | head -3 | tr '\n' ' ')
   echo "$pid-clean $out"
 done
